@@ -138,7 +138,8 @@ def case_strategy():
             st.just(["any"]),
             any_inside(),
             odd_args(inner_strategy().filter(lambda i: i[0] == "gen")),
-            st.sampled_from([["inst", "K0"], ["inst", "K1"], ["inst", "K2"], ["int", 1], ["str", "s"]]),
+            st.sampled_from([["inst", "K0"], ["inst", "K1"], ["inst", "K2"], ["int", 1], ["str", "s"],
+                             ["originst", "K0"], ["originst", "K1"]]),
         )
         # aim some calls at an annotation: pass exactly its inner type or a "smaller" one
         calls = []
@@ -217,6 +218,12 @@ def strip_any(a):
 
 
 def build_passed(v, env):
+    if v[0] == "originst":
+        # an ordinary instance that happens to carry an attribute named __origin__ (it is not a type)
+        o = env[v[1]]()
+        o.__origin__ = list
+        o.__args__ = (int,)
+        return o
     if v[0] == "genobj":
         args = tuple(build_inner(x, env) for x in v[2])
         if len(v) > 3 and v[3] and v[1] in TYPING_SPELL:
@@ -289,7 +296,7 @@ def applicable1(ann, v, env):
             # a metaclass annotation takes the classes it is the metaclass of
             return isinstance(build_passed(v, env), env["ABCMeta"]) if v[0] == "clsobj" else (False if v[0] == "genobj" else None)
         return False if ann[1] not in ("type",) else None
-    return isinstance(S.build_value(v, env), env[ann[1]])
+    return isinstance(build_passed(v, env), env[ann[1]])
 
 
 def order1(a, b, env):
